@@ -488,10 +488,16 @@ func singleSiteArg(p *ssa.Parameter) ssa.Value {
 // crossNorm follows a value across the boundaries of single-use helpers: a parameter of a function
 // with one call site is the argument of that call; the call of a module function with a single
 // return statement is what that statement returns; a write-once captured variable is its value.
-func crossNorm(v ssa.Value) ssa.Value {
+func crossNorm(v ssa.Value) ssa.Value { return crossNormIn(v, nil) }
+
+// crossNormIn: as crossNorm, but the parameters of root are not followed to root's own callers.
+func crossNormIn(v ssa.Value, root *ssa.Function) ssa.Value {
 	for i := 0; i < 8 && v != nil; i++ {
 		switch x := v.(type) {
 		case *ssa.Parameter:
+			if root != nil && x.Parent() == root {
+				return v
+			}
 			if a := singleSiteArg(x); a != nil {
 				v = a
 				continue
@@ -519,6 +525,27 @@ func crossNorm(v ssa.Value) ssa.Value {
 		break
 	}
 	return v
+}
+
+// crossReaches: following v across single-use helpers (as crossNorm does, one step at a time) meets target.
+func crossReaches(v, target ssa.Value) bool {
+	for i := 0; i < 8 && v != nil; i++ {
+		if v == target {
+			return true
+		}
+		var next ssa.Value
+		switch x := v.(type) {
+		case *ssa.Parameter:
+			next = singleSiteArg(x)
+		case *ssa.UnOp:
+			next = cellValue(x)
+		}
+		if next == nil {
+			return false
+		}
+		v = next
+	}
+	return false
 }
 
 func isLenOf(v ssa.Value, fam map[ssa.Value]bool) bool {
@@ -692,8 +719,8 @@ func c19Partition(r *Run, ic *iterCopy) []string {
 	sl := slices[0]
 	u, args, _ := reflectValueCall(sl, "Slice")
 	fam := sameLenFamily(u)
-	lo, hi := crossNorm(args[0]), crossNorm(args[1])
-	nv := crossNorm
+	nv := func(v ssa.Value) ssa.Value { return crossNormIn(v, fn) }
+	lo, hi := nv(args[0]), nv(args[1])
 	isLen := func(v ssa.Value) bool { return isLenOf(v, fam) }
 	// lo: induction variable phi(0, lo + g)
 	var g ssa.Value
